@@ -28,17 +28,20 @@ def file_class(fam, binary, enc):
 
 class CHECK(Check):
     pid = "C16"
-    entry = None
-    theorems = ["C16_read_equiv", "C16_write_equiv", "C16_roundtrip"]
+    entry = "C16"
+    theorems = ["C16_read_equiv", "C16_write_equiv", "C16_roundtrip", "C16_codec_lawful", "C16_utf8_total", "C16_utf16_total",
+                "C16_latin1_total", "C16_decode_empty", "C16_newlines", "C16_text_mode_read_back", "C16_read_equiv_concrete",
+                "C16_write_equiv_concrete", "C16_roundtrip_concrete", "C16_path_read_translates"]
     rule = ("file family {register, block, section} x storage {text, binary (register, block)} x encoding {utf-8, latin-1, "
             "cp1252, utf-16} x contents of 0-6 '\\n'-terminated lines mixing typed lines, free text and non-ASCII words encodable "
             "in the encoding x source/destination {path in a real temporary directory, str/bytes content, caller-owned buffer}: "
             "File.read(path) == File.read(content); bytes on disk after write(path) decoded with the declared encoding equal the "
             "in-memory output (binary: identical bytes); read(path written) == read(memory output); open() is wrapped to record "
             "mode and encoding. non-trivial = content contains a non-ASCII character; distinct = hash")
-    not_exhibited = ["CPython codec tables and BOM handling", "newline translation of open() (contents use \\n only)",
-                     "OS path resolution; the theorems take the file system and a lawful codec as parameters"]
-    assumptions = ["the model's codec is an abstract lawful pair (dec (enc s) = s); real codecs are exercised, not modelled"]
+    not_exhibited = ["OS path resolution (the theorems take the file system as an arbitrary function)",
+                     "error handlers other than strict, encodings other than the four of the property"]
+    assumptions = ["CPython's utf-8/latin-1/cp1252/utf-16 codecs and universal-newline translation are modelled (Py/PyCodec.v), "
+                   "tied to CPython by this check (contents of every case + malformed byte strings), not verified"]
 
     def gen(self, tier, rng):
         n = 1500 if tier == "quick" else 20000
@@ -82,6 +85,12 @@ class CHECK(Check):
         try:
             with real_open(p_in, "wb") as fh:
                 fh.write(content if binary else content.encode(enc))
+            extra_obs = {}
+            if not binary:
+                with real_open(p_in, "rb") as fh:
+                    extra_obs["in_bytes"] = list(fh.read())
+                with real_open(p_in, "r", encoding=enc) as fh:
+                    extra_obs["text_mode_read"] = fh.read()
             builtins.open = wopen
             try:
                 args = (1,) if (binary and fam == "register") else ()
@@ -103,8 +112,9 @@ class CHECK(Check):
             if binary:
                 same = disk == mem_out
             else:
-                same = disk.decode(enc) == mem_out
-            return {"eq_read": eq_read, "disk_equals_memory": same, "eq_roundtrip": eq_back, "buffer_open": buf_open,
+                # byte-exact: the declared encoder's output; a file that received no write call has no preamble (BOM) either
+                same = disk.decode(enc) == mem_out and (disk == mem_out.encode(enc) or (mem_out == "" and disk == b""))
+            return {**extra_obs, "eq_read": eq_read, "disk_equals_memory": same, "eq_roundtrip": eq_back, "buffer_open": buf_open,
                     "opens": seen, "n_elems": sum(1 for _ in f_mem.data)}
         except Exception as e:
             return {"raised": type(e).__name__ + ": " + str(e)[:120]}
@@ -113,7 +123,70 @@ class CHECK(Check):
             shutil.rmtree(TMP, ignore_errors=True)
 
     def model_arg(self, case):
-        return []
+        return [ENCODINGS.index(case["enc"]), "" if case["binary"] else case["content"]]
+
+    def model_obs(self, case, res):
+        if case["binary"]:
+            return {}
+        b, t = res
+        return {"in_bytes": b[0] if b else None, "text_mode_read": lib.to_str(t[0]) if t else None}
+
+    def compare(self, case, iobs, mobs):
+        for k in mobs:
+            if k in iobs and iobs[k] != mobs[k]:
+                return "%s: implementation %r, model %r" % (k, str(iobs[k])[:80], str(mobs[k])[:80])
+        return None
+
+    def extra(self, tier, seed):
+        """primitive-level tie of the codec model: text-mode open() of arbitrary (also malformed) byte strings, and str.encode"""
+        import random
+        rng = random.Random("c16-codecs-%d" % seed)
+        n = 1500 if tier == "quick" else 20000
+        os.makedirs(TMP + "_codec", exist_ok=True)
+        path = os.path.join(TMP + "_codec", "f.bin")
+        args, exp = [], []
+        alphabet_b = [0x41, 0x0a, 0x0d, 0x20, 0x80, 0x81, 0x85, 0x9d, 0xa0, 0xc3, 0xa9, 0xe2, 0x82, 0xac, 0xf0, 0x9f, 0x98, 0x80, 0xff, 0xfe, 0x00, 0xd8, 0xdc, 0xed, 0xc0]
+        alphabet_c = [0x41, 0x0a, 0x0d, 0x20, 0x80, 0x81, 0x85, 0x9d, 0xa0, 0xe9, 0xff, 0x100, 0x152, 0x20ac, 0x2122, 0x2028, 0xfeff, 0xfffe, 0xffff, 0x10000, 0x1f600, 0x10ffff, 0xd800, 0xdfff]
+        for _ in range(n):
+            e = rng.randrange(4)
+            if rng.random() < 0.5:
+                b = bytes(rng.choice(alphabet_b) if rng.random() < 0.8 else rng.randrange(256) for _ in range(rng.randint(0, 8)))
+                if rng.random() < 0.3:
+                    try:
+                        b = "".join(chr(rng.choice(alphabet_c[:18])) for _ in range(rng.randint(0, 5))).encode(ENCODINGS[e])
+                        b = b + rng.choice([b"", b"\r\n", b"\r"]) if e != 3 else b
+                    except UnicodeEncodeError:
+                        pass
+                with open(path, "wb") as fh:
+                    fh.write(b)
+                try:
+                    with open(path, "r", encoding=ENCODINGS[e]) as fh:
+                        want = [[ord(c) for c in fh.read()]]
+                except UnicodeError:
+                    want = []
+                args.append([1, e, list(b)])
+                exp.append(("decode", want))
+            else:
+                t = "".join(chr(rng.choice(alphabet_c)) for _ in range(rng.randint(0, 6)))
+                try:
+                    want = [list(t.encode(ENCODINGS[e], "strict"))]
+                except UnicodeEncodeError:
+                    want = []
+                args.append([0, e, [ord(c) for c in t]])
+                exp.append(("encode", want))
+        res = lib.run_model("CODEC", args)
+        probs = []
+        for a, (kind, want), r in zip(args, exp, res):
+            got = r
+            if kind == "decode" and got:
+                # op 1 decodes only; the text-mode read also translates newlines
+                got = lib.run_model("CODEC", [[2, 0, got[0]]])[0]
+                got = [got]
+            if got != want and len(probs) < 5:
+                probs.append("%s %s %r: CPython %r, model %r" % (kind, ENCODINGS[a[1]], a[2], want, got))
+        shutil.rmtree(TMP + "_codec", ignore_errors=True)
+        return {"what": "codec model (Py/PyCodec.v) vs CPython: str.encode and text-mode open().read() on arbitrary byte strings",
+                "evaluations": len(args), "problems": probs}
 
     def oracle(self, case, obs):
         if "raised" in obs:
